@@ -98,12 +98,17 @@ class Runner:
                 self.handles[k] = p[1][8:8 + n]
         return self.handles[k]
 
-    def request(self, route, size, start, length, bsize, alg, deadline=None):
-        """-> {"kind": reply|status|none, "digests": bytes, "why": ...}"""
+    def request(self, route, size, start, length, bsize, alg, deadline=None, short="none"):
+        """-> {"kind": reply|status|none, "digests": bytes, "why": ...}
+        short: how the served handle answers reads ("up to length bytes"): none = full length, one = 1 byte,
+        cap16k = at most 16384, random = seeded random lengths"""
         deadline = deadline or self.deadline
         h = self.handle(route, size)
         s = self.session(route)
         s.knobs.empty_run = 0          # spinning = consecutive empty reads within ONE request
+        srnd = random.Random(size * 31 + start * 7 + length * 3 + bsize)
+        s.knobs.short = {"none": None, "one": lambda off, ln: 1, "cap16k": lambda off, ln: min(ln, 16384),
+                         "random": lambda off, ln: srnd.choice([1, ln, ln, max(1, ln // 3), srnd.randint(1, ln)])}[short]
         if route == "client":
             w = self.workers.get(id(s))
             if w is None:
@@ -175,8 +180,11 @@ def gen_random(rnd, n):
         cap = 300 if rnd.random() < 0.03 else 24          # blocks per request (keeps TLC's RANGES output small)
         if bsize >= 256 and eff // bsize > cap:
             bsize = max(bsize, eff // cap + 1)
+        short = rnd.choice(["none", "none", "cap16k", "random", "random", "one"])
+        if short == "one" and eff > 3000:
+            short = "cap16k"               # one byte per read only over small ranges (time)
         out.append({"route": rnd.choice(["client", "raw"]), "alg": rnd.choice(["md5", "sha1"]), "size": size,
-                    "start": start, "length": length, "bsize": bsize})
+                    "start": start, "length": length, "bsize": bsize, "short": short})
     return out
 
 
@@ -187,6 +195,7 @@ def run(c):
     for _, size, start, length, bsize, expected, cls, deg, empty in cases:
         reqs.append({"route": "client", "alg": "md5" if (size + start + length + bsize) % 2 else "sha1",
                      "size": size * UNIT, "start": start * UNIT, "length": length * UNIT, "bsize": bsize * UNIT,
+                     "short": ["none", "cap16k", "random"][len(reqs) % 3],
                      "model": [[a * UNIT, b * UNIT] for a, b in expected]})
     nmodel = len(reqs)
     reqs += gen_random(rnd, 600 if c.quick else 6000)
@@ -207,10 +216,10 @@ def run(c):
     try:
         for i, q in enumerate(reqs):
             want = ranges[i + 1]
-            o = run_.request(q["route"], q["size"], q["start"], q["length"], q["bsize"], q["alg"])
+            o = run_.request(q["route"], q["size"], q["start"], q["length"], q["bsize"], q["alg"], short=q["short"])
             if o["kind"] == "none" and o["why"] == "deadline":     # real-time verdict: once more, doubled deadline
                 o = run_.request(q["route"], q["size"], q["start"], q["length"], q["bsize"], q["alg"],
-                                 deadline=2 * run_.deadline)
+                                 deadline=2 * run_.deadline, short=q["short"])
             dl = 16 if q["alg"] == "md5" else 20
             H = hashlib.md5 if q["alg"] == "md5" else hashlib.sha1
             data = run_.data(q["size"])
@@ -221,8 +230,8 @@ def run(c):
                    "kind": o["kind"], "nd": nd, "tail": tail, "eq": eq}
             out.append(rec)
             q["obs"] = {"kind": o["kind"], "why": o["why"], "digests": nd, "expected_blocks": len(want)}
-            c.case(key=(q["route"], q["alg"], q["size"], q["start"], q["length"], q["bsize"]),
-                   sample=({k: q[k] for k in ("route", "alg", "size", "start", "length", "bsize", "obs")}
+            c.case(key=(q["route"], q["alg"], q["size"], q["start"], q["length"], q["bsize"], q["short"]),
+                   sample=({k: q[k] for k in ("route", "alg", "size", "start", "length", "bsize", "short", "obs")}
                            if i % 997 == 5 else None))
     finally:
         run_.close()
@@ -234,18 +243,20 @@ def run(c):
     def describe(tid, clause, row):
         q = reqs[tid - 1]
         key = "%s:%s" % (clause, row[2])
-        what = ("check-file(%s, offset=%d, length=%d, block_size=%d) on a %d-byte file via %s: %s "
+        what = ("check-file(%s, offset=%d, length=%d, block_size=%d) on a %d-byte file%s via %s: %s "
                 "(response %s, %d digests, %d blocks expected%s)" %
-                (q["alg"], q["start"], q["length"], q["bsize"], q["size"], q["route"], clause, q["obs"]["kind"],
+                (q["alg"], q["start"], q["length"], q["bsize"], q["size"],
+                 "" if q["short"] == "none" else " (handle returns short reads: %s)" % q["short"], q["route"], clause, q["obs"]["kind"],
                  q["obs"]["digests"], q["obs"]["expected_blocks"],
                  (", " + q["obs"]["why"]) if q["obs"]["why"] else ""))
-        return key, what, {k: q[k] for k in ("route", "alg", "size", "start", "length", "bsize", "obs")}
+        return key, what, {k: q[k] for k in ("route", "alg", "size", "start", "length", "bsize", "short", "obs")}
     c.verdicts(res["VERDICT"], describe)
     c.rule = ("every (size, offset, length, block size) of the bounded model scaled by 16 KiB (TLC-enumerated) + seeded "
               "random requests over boundary values (0, 1, 255..257, 64 KiB +-1, EOF +-1, past EOF; md5/sha1; SFTPFile.check "
-              "and raw packets); distinct = distinct (route, alg, size, offset, length, block size)")
+              "and raw packets; the served handle answers reads in full, capped at 16 KiB, with seeded random lengths or one byte at a "
+              "time); distinct = distinct (route, alg, size, offset, length, block size, read mode)")
     c.extra["exhaustive"] = False
     c.extra["model_requests_replayed"] = nmodel
-    c.assumptions = ["files are regular files served through the library's SFTPHandle.read",
+    c.assumptions = ["files are regular files served through the library's SFTPHandle.read, which the driver's handle may shorten",
                      "promptness is judged by progress of the server's read loop (512 consecutive empty reads = spinning) "
                      "and a wall deadline of %.0f s, re-tried once doubled" % run_.deadline]
